@@ -136,7 +136,9 @@ Inductive reply :=
 | RepLimits               (* org.freedesktop.DBus.Error.LimitsExceeded *)
 | RepInvalid              (* ...MatchRuleInvalid *)
 | RepDenied               (* ...AccessDenied (eavesdrop='true' from an unprivileged caller) *)
-| RepOkThenNotFound.      (* RemoveMatch: the staged method return AND the MatchRuleNotFound error *)
+| RepNotFound             (* ...MatchRuleNotFound, the only reply *)
+| RepOkThenNotFound.      (* a method return AND then MatchRuleNotFound for the same call: what RemoveMatch sent
+                             before the F9 fix; kept as an observable so that the theorem excluding it says something *)
 
 (* [limit] = max_match_rules_per_connection; [privileged] = bus_driver_check_caller_is_privileged *)
 Definition handle_add_match (limit : N) (privileged : bool) (m : mm) (c : conn) (text : bytes) : mm * reply :=
@@ -154,9 +156,10 @@ Definition handle_remove_match (m : mm) (c : conn) (text : bytes) : mm * reply :
   | PLimits => (m, RepLimits)
   | PInvalid => (m, RepInvalid)
   | POk r =>
-      (* the ack is staged before the lookup *)
+      (* bus_matchmaker_has_rule_by_value first: MatchRuleNotFound before anything is queued; then the ack,
+         then the removal (which finds the rule the lookup found) *)
       match remove_rule_by_value m r with
-      | None => (m, RepOkThenNotFound)
+      | None => (m, RepNotFound)
       | Some m' => (m', RepOk)
       end
   end.
